@@ -9,9 +9,11 @@ import (
 	"encoding/json"
 	"fmt"
 	"sort"
+	"strings"
 
 	"verif/internal/bytemc"
 	"verif/internal/core"
+	"verif/internal/gens"
 	"verif/internal/mach"
 	"verif/internal/ref/jsonref"
 )
@@ -32,9 +34,9 @@ func init() {
 			"abstract key merges states that differ only in data (digits, string bytes, element counts above 2)"},
 		Bound: func(tier string) string {
 			if tier == "thorough" {
-				return "nesting D=5, all 256 bytes, BFS to fix-point"
+				return "nesting D=5, all 256 bytes, BFS to fix-point; scale family: 231 documents of 7..129 elements / members / levels and strings of 7..4097 bytes, valid and damaged at one place"
 			}
-			return "nesting D=3, all 256 bytes, BFS to fix-point"
+			return "nesting D=3, all 256 bytes, BFS to fix-point; scale family: 168 documents of 7..65 elements / members / levels and strings of 7..257 bytes, valid and damaged at one place"
 		},
 	})
 }
@@ -208,6 +210,7 @@ func run(c *core.Ctx) {
 	placement(c, m, e, sub, addGroup)
 	if sub == 0 {
 		bomFamily(c, m, e.Cfg)
+		scaleFamily(c, m, e.Cfg)
 	}
 	// emit groups as failures
 	ids := make([]int, 0, len(perState))
@@ -369,6 +372,80 @@ func bomFamily(c *core.Ctx, m *mach.M, cfg mach.Config) {
 					}
 				}
 			}
+		}
+	}
+}
+
+// scaleFamily: the search is bounded by nesting depth D and merges "one more
+// element" into the same state, so it never has 17 open containers or 65
+// elements on a stack. The scale family (gens.ScaleDocs) puts 7..129 elements,
+// members and nesting levels and strings of 7..4097 bytes through every
+// front-end, as they are (valid) and damaged at one place (last byte missing, a
+// closer too many, the first / middle / last closer of the other kind, the
+// middle closer missing): []byte entry point, one read, one-byte reads, reads of
+// 16 bytes. The verdict must be the reference's.
+func scaleFamily(c *core.Ctx, m *mach.M, cfg mach.Config) {
+	for _, d := range gens.ScaleDocs(c.Quick()) {
+		if c.Expired("C01 scale family") {
+			return
+		}
+		t := gens.ScaleJSON(d.Tree)
+		shape := d.Name[:strings.IndexByte(d.Name, ':')]
+		var closers []int
+		for i, b := range t {
+			if b == ']' || b == '}' {
+				closers = append(closers, i)
+			}
+		}
+		type variant struct {
+			name string
+			in   []byte
+		}
+		vs := []variant{{"as-it-is", t}, {"last-byte-missing", t[:len(t)-1]}, {"closer-too-many", append(append([]byte{}, t...), t[len(t)-1])}}
+		for k, ci := range []int{closers[0], closers[len(closers)/2], closers[len(closers)-1]} {
+			w := append([]byte{}, t...)
+			w[ci] ^= ']' ^ '}'
+			vs = append(vs, variant{[]string{"first", "middle", "last"}[k] + "-closer-of-the-other-kind", w})
+		}
+		if len(closers) > 1 {
+			ci := closers[len(closers)/2]
+			vs = append(vs, variant{"middle-closer-missing", append(append([]byte{}, t[:ci]...), t[ci+1:]...)})
+		}
+		for _, v := range vs {
+			in := v.in
+			r := jsonref.Run(in)
+			want := r.Accepting() || r.NoDocument()
+			if want != stdValid(in) || want != (v.name == "as-it-is") {
+				c.HarnessError("scale family: reference %v, encoding/json %v on %s %s", want, stdValid(in), d.Name, v.name)
+				continue
+			}
+			judge := func(entry, class string, chunks [][]byte, o *mach.Out) {
+				c.Eval()
+				c.Add("scale_family_runs", 1)
+				if got := !o.Failed(); got != want {
+					kind := "rejects-valid"
+					if got {
+						kind = "accepts-invalid"
+					}
+					cs := caseT{Machine: m.Name, Entry: entry, Input: in, Quoted: d.Name + " " + v.name, Kind: kind, Chunks: chunks}
+					if len(in) <= 400 {
+						cs.GoTest = mach.GoTestEnv(m.Name, entry, chunks, false, cfg, nil, false)
+					}
+					c.Fail(core.Sig("fe="+m.Name+"."+entry, "scale-"+shape, v.name, class, kind), cs, len(in)*10+len(chunks), fmt.Sprintf("accept=%v", want), fmt.Sprintf("accept=%v err=%v panic=%v", got, o.Err, o.Panic))
+				}
+			}
+			judge("whole", "whole", [][]byte{in}, m.Whole(in, cfg))
+			judge("reader", "one-read", [][]byte{in}, m.Feed([][]byte{in}, cfg, false, false))
+			judge("reader", "one-byte-reads", mach.Bytewise(in), m.Feed(mach.Bytewise(in), cfg, false, false))
+			var ch [][]byte
+			for i := 0; i < len(in); i += 16 {
+				e := i + 16
+				if e > len(in) {
+					e = len(in)
+				}
+				ch = append(ch, in[i:e])
+			}
+			judge("reader", "reads-of-16", ch, m.Feed(ch, cfg, false, false))
 		}
 	}
 }
